@@ -4,7 +4,7 @@ import ast
 from ..index import u, call_name, call_attr, walk_local, base_name
 from .. import flow, interp
 from ..fold import try_fold
-from ..util import stmts_with_env, calls_with_env, assignments_to, single_def, kwarg, param_names, is_log_call, log_type, loops_around
+from ..util import canon_comprehension, stmts_with_env, calls_with_env, assignments_to, single_def, kwarg, param_names, is_log_call, log_type, loops_around
 from .common import method, unconditional_in
 from .c09 import constituents_rule
 from . import shared
@@ -166,7 +166,7 @@ def run(ck):
     ck.ob('PROV-weights', mod.loc(abm), ok, 'particles built from no atom are recorded by their key in the output molecule (the merged key), with weight 0 for the atoms of the placement',
           key='PROV-weights|spawned')
     mbi = single_def(abm, 'mapped_block_idxs')
-    ck.ob('PROV-weights', mod.loc(abm), mbi is not None and u(mbi) == '{block_idx for mol_idx in mol_to_block for block_idx in mol_to_block[mol_idx]}',
+    ck.ob('PROV-weights', mod.loc(abm), mbi is not None and canon_comprehension(mbi) == canon_comprehension('{block_idx for mol_idx in mol_to_block for block_idx in mol_to_block[mol_idx]}'),
           '"built from no atom" means: block atoms that no atom of the placement maps to', key='PROV-weights|spawned-def')
     # overlap: computed before the table is updated
     ov = [s for s in abm.body if isinstance(s, ast.Assign) and u(s.targets[0]) == 'overlap']
